@@ -326,7 +326,10 @@ func cTokens(g *h.Gen, ti *terminfo.Terminfo, keys []string) []gtok {
 		{"altchar", []byte{0x1b, byte(g.R.Range(0x20, 0x7e))}},
 		{"text", []byte(h.Pick(g.R, []string{"x", "hello", "\r", "\t", "q", "M", "[", "<", ";", "\\", "\a"}))},
 		{"nearmiss", []byte(h.Pick(g.R, []string{"\x1b[", "\x1b[<", "\x1b[M", "\x1b]52;c;", "\x1b]52", "\x1b[<0;1", "\x1b[<0;1;1", "\x1bq[<0;5;5M", "\x1b[<-;1;1M",
-			"\x1b[<;;M", "\x1b[<1;2;3;4M", "\x1b[20", "\x1bO", "\x1babcdefgh\a", "\x1b]53;c;QUJD\a", "\x1b]52;p;QUJD\a", "\x1b]52;c;QUJD\x1bx", "\x1b]52;c;QU*D\a", "\xff\x1b[<0;5;5M"}))},
+			"\x1b[<;;M", "\x1b[<1;2;3;4M", "\x1b[20", "\x1bO", "\x1babcdefgh\a", "\x1b]53;c;QUJD\a", "\x1b]52;p;QUJD\a", "\x1b]52;c;QUJD\x1bx", "\x1b]52;c;QU*D\a", "\xff\x1b[<0;5;5M",
+			// bytes that belong to no SGR report in front of, inside and behind one (fixes/C02-sgr-strict.patch)
+			"\x1b[<0:5;5M", "\x1b[<<0;5;5M", "\x1b[<0;5;5xM", "\x1b[[<0;5;5M", "\x1b[<0;5 ;5M", "\x1b[<0 ;5;5M", "\x1b [<0;5;5M", "\x1b[ <0;5;5M",
+			"\x1b[<0;5;5~", "\x1b[<0;5;5;M", "\x1b[<0;5M", "z\x1b[<0;5;5M", "\xc3\x1b[<0;5;5m", "\x1b[<\xe9"+"0;5;5M"}))},
 		{"random", rnd},
 	}
 }
@@ -356,7 +359,28 @@ func genParseChunk(g *h.Gen) {
 		g.Emit("parsechunk %s%s utf8 80 24 1b5d35:0 323b633b614756736247:0 38383d0778:0", e, vs)
 		g.Emit("parsechunk %s%s utf8 80 24 1b61626364656667:0 6807:1", e, vs)
 		g.Emit("parsechunk %s%s utf8 80 24 1b715b3c303b353b354d:0", e, vs)
+		g.Emit("parsechunk %s%s utf8 80 24 1b715b3c303b353b354d:1", e, vs)   // sgr_junk_swallowed / sgr_strict_delivers
+		g.Emit("parsechunk %s%s utf8 80 24 ff1b5b3c303b353b354d:1", e, vs)   // sgr_strict_delivers_ff
+		g.Emit("parsechunk %s%s utf8 80 24 1b78:0", e, vs)                   // sgr_pinned_esc_waits / sgr_strict_esc_immediate
+		g.Emit("parsechunk %s%s utf8 80 24 1b78:0 -:1", e, vs)
+		g.Emit("parsechunk %s%s utf8 80 24 1b5b3c303b353b354d7879:0", e, vs) // example of sgr_no_junk
 		g.Emit("parsechunk %s%s utf8 80 24 1b:1", e, vs)
+	}
+	// bytes that belong to no SGR report in front of / inside / behind one, at every position of the report (property:
+	// "a recognised sequence never swallows … bytes that precede or follow it"; fixes/C02-sgr-strict.patch), whole and split
+	rep := []byte("\x1b[<0;15;5M")
+	for pos := 0; pos <= len(rep); pos++ {
+		for _, junk := range []string{"x", ":", "<", "[", " ", "\x1b", "~", "\xc3\xa9"} {
+			if pos == len(rep) && junk == "\x1b" {
+				continue
+			}
+			b := append(append(append([]byte{}, rep[:pos]...), junk...), rep[pos:]...)
+			g.Emit("parsechunk xterm-256color%s utf8 80 24 %s", vs, hexFeed(b, true))
+			if g.R.Chance(25) {
+				c := g.R.Range(1, len(b)-1)
+				g.Emit("parsechunk xterm-256color%s utf8 80 24 %s %s", vs, hexFeed(b[:c], false), hexFeed(b[c:], true))
+			}
+		}
 	}
 	g.Emit("parsechunk rxvt%s utf8 80 24 1b5b4f61:0", vs)
 	g.Emit("parsechunk rxvt%s utf8 80 24 1b5b4f:0 61:0", vs)
